@@ -20,7 +20,7 @@ def mods(fake_skia=True, lex_placeholders=True):
     return m
 
 
-_OPAQUE = ("sin", "cos", "tan", "atan2", "round_", "ceil", "geo!", "area!", "bnd!", "ac!")
+_OPAQUE = ("sx_sin", "sx_cos", "sx_tan", "sx_atan2", "sx_round_", "sx_ceil", "geo!", "area!", "bnd!", "ac!")
 
 
 def _has_opaque(t, seen=None):
@@ -88,48 +88,7 @@ def interior_model(ctx, eps_list=("1", "1/100", "1/1000000")):
 
 
 def _interior_model(ctx, eps="1/1000000"):
-    """A model of the path condition in which every decided inequality holds
-    with margin eps, so that the float run of the real package follows the same
-    branches.  None if the path needs an exact coincidence (validation skipped)."""
-    import z3
-
-    e = z3.RealVal(eps)
-
-    def strengthen(t):
-        if z3.is_not(t):
-            a = t.arg(0)
-            if z3.is_le(a):  # not (x <= y)  ->  x >= y + e
-                return a.arg(0) >= a.arg(1) + e
-            if z3.is_ge(a):
-                return a.arg(0) + e <= a.arg(1)
-            if z3.is_lt(a):
-                return a.arg(0) >= a.arg(1)
-            if z3.is_gt(a):
-                return a.arg(0) <= a.arg(1)
-            if z3.is_eq(a) and a.arg(0).sort() == z3.RealSort():
-                return z3.Or(a.arg(0) >= a.arg(1) + e, a.arg(0) + e <= a.arg(1))
-            if z3.is_and(a):
-                return z3.Or(*[strengthen(z3.Not(c)) for c in a.children()])
-            if z3.is_or(a):
-                return z3.And(*[strengthen(z3.Not(c)) for c in a.children()])
-            return t
-        if z3.is_and(t):
-            return z3.And(*[strengthen(c) for c in t.children()])
-        if z3.is_lt(t):
-            return t.arg(0) + e <= t.arg(1)
-        if z3.is_gt(t):
-            return t.arg(0) >= t.arg(1) + e
-        if z3.is_distinct(t) and t.num_args() == 2:
-            return z3.Or(t.arg(0) >= t.arg(1) + e, t.arg(0) + e <= t.arg(1))
-        return t
-
-    s = z3.Solver()
-    s.set("timeout", 3000)
-    for a in ctx.assertions:
-        s.add(strengthen(a))
-    if s.check() == z3.sat:
-        return s.model()
-    return None
+    return C.interior_model(ctx.assertions, eps)
 
 
 def run_symbolic(
